@@ -22,3 +22,37 @@ def Closed (children : Nat → List Nat) (l : List Nat) : Prop :=
   ∀ i x, l[i]? = some x → ∀ c ∈ children x, c ∈ l.take i
 
 end Hdl21.ExportOrder
+
+/-! ## with names: `export_module_name` reserves the serialized name before the dependencies are exported -/
+namespace Hdl21.ExportOrder
+
+structure NState where
+  done : List Nat            -- `pkg.modules`, by module number
+  reserved : List String     -- keys of `modules_by_name`
+  deriving Repr, DecidableEq
+
+/-- a `for` loop that stops at the first failure -/
+def foldOpt (f : NState → Nat → Option NState) : NState → List Nat → Option NState
+  | s, [] => some s
+  | s, c :: rest =>
+    match f s c with
+    | none => none
+    | some s' => foldOpt f s' rest
+
+/-- `export_module(m)` with the name check: already exported → nothing; name taken → `RuntimeError` (`none`); otherwise reserve
+    the name, export the dependencies, append the module. -/
+def exportNamed (name : Nat → String) (children : Nat → List Nat) : Nat → NState → Nat → Option NState
+  | 0, _, _ => none
+  | fuel + 1, s, m =>
+    if m ∈ s.done then some s
+    else if name m ∈ s.reserved then none
+    else
+      match foldOpt (exportNamed name children fuel) { s with reserved := name m :: s.reserved } (children m) with
+      | none => none
+      | some s' => some { s' with done := s'.done ++ [m] }
+
+/-- `export()`: every top in turn -/
+def exportNamedTops (name : Nat → String) (children : Nat → List Nat) (fuel : Nat) (tops : List Nat) : Option NState :=
+  foldOpt (exportNamed name children fuel) ⟨[], []⟩ tops
+
+end Hdl21.ExportOrder
